@@ -551,23 +551,29 @@ fn unhide(ctx: &mut Ctx) {
         let out = guarded(|| {
             let mut r = Rng::for_case(seed, "c18.unhide", idx);
             let pool = ["fnarg, a", "fnarg, b", "fnarg, a, b", "fnarg", "fnarg,a", "fnarg, 'a'"];
+            // locations that all cover the page sub.u.example: the host, its parent, entity forms
+            let covering = ["sub.u.example", "u.example", "u.*", "sub.u.*", "example"];
+            let elsewhere = ["other.example", "x.sub.u.example", "v.*"];
             let mut injected: BTreeSet<&str> = BTreeSet::new();
             let mut lines = vec![];
             for _ in 0..1 + r.below(4) {
                 let a = r.ps(&pool);
                 injected.insert(a);
-                lines.push(format!("u.example##+js({})", a));
+                lines.push(format!("{}##+js({})", r.ps(&covering), a));
             }
             let mut removed: BTreeSet<&str> = BTreeSet::new();
             let mut blanket = false;
             for _ in 0..r.below(3) {
                 if r.chance(1, 4) {
                     blanket = true;
-                    lines.push("u.example#@#+js()".to_string());
+                    lines.push(format!("{}#@#+js()", r.ps(&covering)));
+                } else if r.chance(1, 4) {
+                    // an exception scoped elsewhere removes nothing
+                    lines.push(format!("{}#@#+js({})", r.ps(&elsewhere), r.ps(&pool)));
                 } else {
                     let a = r.ps(&pool);
                     removed.insert(a);
-                    lines.push(format!("u.example#@#+js({})", a));
+                    lines.push(format!("{}#@#+js({})", r.ps(&covering), a));
                 }
             }
             r.shuffle(&mut lines);
@@ -575,7 +581,7 @@ fn unhide(ctx: &mut Ctx) {
             fs.add_filters(&lines, ParseOptions::default());
             let mut e = Engine::from_filter_set(fs, true);
             e.use_resources(vec![js("fnarg.js", "function fnarg() { /*FN*/ }", &[], 0, &["fnarg".to_string()], "application/javascript").to_resource()]);
-            let inv = invocations(&e.url_cosmetic_resources("https://u.example/").injected_script);
+            let inv = invocations(&e.url_cosmetic_resources("https://sub.u.example/").injected_script);
             // expected: identical text removes; different spelling of the same call does not
             let mut want: BTreeSet<String> = BTreeSet::new();
             if !blanket {
